@@ -541,18 +541,20 @@ Proof.
   all: try (timeout 10 nia).
 Qed.
 
-Lemma c14_plane_ok_exact a b p : c14_triple a b p = 0 -> c14_plane_ok a b p = true.
+Lemma c14_plane_ok_exact a b p : c14_cross a b <> (0, 0, 0) -> c14_triple a b p = 0 -> c14_plane_ok a b p = true.
 Proof.
-  intros H. unfold c14_plane_ok. rewrite H.
-  pose proof (c14_nsq_nonneg a). pose proof (c14_nsq_nonneg b). pose proof (c14_nsq_nonneg p).
+  intros Hn H. unfold c14_plane_ok. rewrite H.
+  apply c14_is0_false in Hn. rewrite Hn. cbn [negb andb].
+  pose proof (c14_nsq_nonneg (c14_cross a b)). pose proof (c14_nsq_nonneg p).
   assert (0 <= c14_TOL_num * c14_TOL_num) by nia.
-  assert (0 <= c14_nsq a * c14_nsq b * c14_nsq p) by nia.
+  assert (0 <= c14_nsq (c14_cross a b) * c14_nsq p) by nia.
   nia.
 Qed.
 
-Lemma c14_plane_ok_false_triple a b p : c14_plane_ok a b p = false -> c14_triple a b p <> 0.
+Lemma c14_plane_ok_false_triple a b p :
+  c14_cross a b <> (0, 0, 0) -> c14_plane_ok a b p = false -> c14_triple a b p <> 0.
 Proof.
-  intros H E. rewrite c14_plane_ok_exact in H by assumption. discriminate.
+  intros Hn H E. rewrite c14_plane_ok_exact in H by assumption. discriminate.
 Qed.
 
 (* for p on the plane, a x p is parallel to n = a x b:  |n|^2 (a x p) = ((a x p).n) n *)
@@ -615,9 +617,9 @@ Proof.
   destruct Hpl as [Ht|Hpl].
   2:{ rewrite Hpl. cbn [negb]. f_equal. symmetry.
       rewrite c14_on_arc_unfold.
-      apply c14_plane_ok_false_triple in Hpl.
+      apply (c14_plane_ok_false_triple a b p Hn) in Hpl.
       destruct (Z.eqb_spec (c14_triple a b p) 0); [contradiction|reflexivity]. }
-  rewrite (c14_plane_ok_exact a b p Ht). cbn [negb].
+  rewrite (c14_plane_ok_exact a b p Hn Ht). cbn [negb].
   (* longitudes are the plain (x, y) directions *)
   assert (Da : c14_x a <> 0 \/ c14_y a <> 0).
   { destruct a as [[xa ya] za], b as [[xb yb] zb]; c14_unf. nia. }
@@ -996,9 +998,9 @@ Proof.
   rewrite Anti.
   destruct Hpl as [Ht|Hpl].
   2:{ rewrite Hpl. cbn [negb]. f_equal. symmetry. rewrite c14_on_arc_unfold.
-      apply c14_plane_ok_false_triple in Hpl.
+      apply (c14_plane_ok_false_triple a b p Hn) in Hpl.
       destruct (Z.eqb_spec (c14_triple a b p) 0); [contradiction|reflexivity]. }
-  rewrite (c14_plane_ok_exact a b p Ht). cbn [negb].
+  rewrite (c14_plane_ok_exact a b p Hn Ht). cbn [negb].
   rewrite (c14_lon_f_plain a Pa Da), (c14_lon_f_plain b Pb Db), (c14_lon_f_plain p Pp Dp) in *.
   rewrite Heq.
   unfold c14_lat_f. rewrite Pa, Pb, Pp.
